@@ -394,7 +394,7 @@ class Param():
         def new_packet_cb(pk):
             if pk.channel == MISC_CHANNEL and pk.data[0] == MISC_GET_DEFAULT_VALUE and \
                     struct.unpack('<H', pk.data[1:3])[0] == element.ident:
-                if pk.data[3] == errno.ENOENT:
+                if pk.data[3] == errno.ENOENT and len(pk.data) != 3 + struct.calcsize(element.pytype):
                     callback(complete_name, None)
                     self.cf.remove_port_callback(CRTPPort.PARAM, new_packet_cb)
                     return
